@@ -73,7 +73,7 @@ var bannedPredicates = []string{"strings.Contains(", "strings.HasPrefix(", "stri
 
 // grantPredicate: C14.2.
 func grantPredicate(c *engine.Ctx) {
-	o := c.Custom("C14.2", "predicate", "every granting path of TemporaryEvaluate depends on (a) an == between a non-empty element of the caller's groups and a configured admin group, or (b) all identity keys (preferred_username, name, groups) being empty; no substring/prefix/fold/index/regexp test decides a grant",
+	o := c.Custom("C14.2", "predicate", "every granting path of TemporaryEvaluate depends on (a) an == between a non-empty element of the caller's groups and a configured admin group, or (b) all identity keys (preferred_username, name, email, groups) being empty; no substring/prefix/fold/index/regexp test decides a grant",
 		"a caller with no groups, or whose group merely resembles an administrator group's name, must be refused")
 	defer o.Done(1)
 	paths, err := c.A.PathsOpt(pkgUtils, engine.PathOpts{Roots: []string{"utils.TemporaryEvaluate"}, NoInline: true})
@@ -178,7 +178,7 @@ func grantPredicate(c *engine.Ctx) {
 				}
 			}
 		}
-		if empty["preferred_username"] && empty["name"] && empty["groups"] {
+		if empty["preferred_username"] && empty["name"] && empty["groups"] && empty["email"] {
 			continue
 		}
 		// (a) equality of a non-empty caller group with a configured group
